@@ -172,6 +172,7 @@ func registerMore2() {
 		Harnesses: []HarnessSpec{
 			{Dir: "handler", Name: "Harness_C16_positional", Reach: []string{"called", "rejected"}},
 			{Dir: "handler", Name: "Harness_C16_positional_arity", Reach: []string{"arity"}},
+			{Dir: "handler", Name: "Harness_C16_custom", Reach: []string{"custom-rejected", "custom-accepted"}},
 			{Dir: "handler", Name: "Harness_C16_args", Reach: []string{"not-array", "length-mismatch", "element-error", "decoded"}},
 			{Dir: "handler", Name: "Harness_C16_args_marshal", Reach: []string{"marshalled"}},
 			{Dir: "handler", Name: "Harness_C16_obj", Reach: []string{"decoded", "obj-done"}},
